@@ -406,7 +406,8 @@ class Universe:
         if self.files:
             ts = self.tsf[rank]  # the real instant of that write
         else:
-            ts = 947894400 + rank  # 2000-01-15T00:00:00Z + rank seconds
+            # 2000-01-15T00:00:00Z + rank seconds; or 2100-01-15 (a store whose clock runs ahead: stamps in the future)
+            ts = (mix or {}).get("base", 947894400) + rank
         if not mix:
             return dt.datetime.fromtimestamp(ts)
         kind = mix["fresh"] if n is None else mix["kinds"][(n - 1) % len(mix["kinds"])]
@@ -741,8 +742,18 @@ def plan_digest(plan):
         nodes.append((id(nd), t, getattr(nd, "scope", "<no scope>"), extra, tuple(sorted(map(repr, g.nodes[nd].items())))))
     edges = sorted((id(u), id(v), edge_key_repr(k), tuple(sorted(map(repr, d.items())))) for u, v, k, d in g.edges(keys=True, data=True))
     # any other attribute on the Plan object (a flag left set, ...) counts too
-    extra = tuple(sorted((k, repr(v)) for k, v in vars(plan).items() if k not in ("graph", "_scope", "_scope_lock")))
-    return (tuple(nodes), tuple(edges), plan._scope, tuple(sorted(map(repr, g.graph.items()))), extra)
+    # every other attribute of the Plan object, whatever it is called (the current scope, a flag left set, ...);
+    # locks only by whether they are held
+    extra = []
+    for k, v in sorted(vars(plan).items()):
+        if k == "graph":
+            continue
+        if hasattr(v, "acquire") and hasattr(v, "release"):
+            lk = getattr(v, "locked", None)
+            extra.append((k, "lock", bool(lk()) if callable(lk) else None))
+        else:
+            extra.append((k, repr(v)))
+    return (tuple(nodes), tuple(edges), tuple(sorted(map(repr, g.graph.items()))), tuple(extra))
 
 
 def registry_digest(reg):
